@@ -26,7 +26,7 @@ ASSUMPTIONS = ["identifiers are XML tokens (no leading/trailing/double white spa
                "HTML precision: coordinates 1e-5 m, observations 1e-5 / 1e-6, standard deviations 0.06 (one printed decimal)",
                "text / Octave layouts as written by the unchanged tree (read by small purpose-built readers)"]
 REQUIRED_CLASSES = ["special_ids", "non_ascii_ids", "cov_band_clipped", "html_checked", "octave_checked", "text_checked",
-                    "comparexyz_two", "deformation_two"]
+                    "comparexyz_two", "deformation_two", "deformation_cov", "epoch2_extra_point", "text_orientations", "mixed_dims"]
 
 SPECIAL = ["A&B", "P<1", "x>y", 'q"t', "it's", "a&amp;b", "<&>", "T-1&2", "R'\"", "B&&", "1<2>3", "&lt;"]
 UNI = ["Ž1", "bod č.7", "αβγ", "点A", "Ünï", "é", "ß", "Ω9", "Żółć", "Привет"]
@@ -36,6 +36,7 @@ PLAIN = ["A", "B1", "C_2", "D-3", "E.4", "101", "0007", "Pt", "s12", "N9", "K", 
 @st.composite
 def case(draw):
     net = draw(gen_net.determined_network(noise=1, n_max=7))
+    mixed = gen_net.add_mixed_points(draw, net) if draw(st.booleans()) else []
     n = len(net["points"])
     style = draw(st.sampled_from(["special", "unicode", "mixed", "plain", "long"]))
     pool = {"special": SPECIAL, "unicode": UNI, "mixed": SPECIAL + UNI + PLAIN, "plain": PLAIN,
@@ -63,7 +64,7 @@ def case(draw):
             "angular": draw(st.sampled_from(["400", "360"])),
             "lang": draw(st.sampled_from(["en", "en", "en", "en", "cz", "fr", "ru", "zh", "hu"])),
             "enc": draw(st.sampled_from(["utf-8", "iso-8859-2", "cp-1250", "cp-1251"])),
-            "shift": shift}
+            "shift": shift, "mixed": bool(mixed), "extra": draw(st.sampled_from([None, None, "first", "last"]))}
 
 
 def close(a, b, rel=1e-12, ab=0.0):
@@ -93,6 +94,8 @@ def oracle(c, stats):
         stats.label("non_ascii_ids")
     if any(re.search(r"[&<>\"']", i) for i in ids):
         stats.label("special_ids")
+    if c.get("mixed"):
+        stats.label("mixed_dims")
     gkf = nm.gkf_text(net)
     args = ["--algorithm", c["alg"], "--angular", c["angular"], "--language", c["lang"]]
     if c["band"] != -1:
@@ -333,6 +336,34 @@ def check_text(c, x, text_bytes, stats):
             fails.append("text.coordinates: adjusted values of the text output %s differ from the XML %s" % (found[:6], vals[:6]))
     elif vals:
         fails.append("text.coordinates_missing: no adjusted coordinate lines recognised")
+    # adjusted orientation unknowns: rows "i standpoint approximate correction adjusted sd ci" [gon] (gons only)
+    if c["angular"] == "400" and x["orientations"]:
+        rows = []
+        section = False
+        for line in text.splitlines():
+            if line.startswith("Adjusted orientation unknowns"):
+                section = True
+                continue
+            if section and (line.startswith("Mean errors") or line.startswith("Adjusted observations") or line.startswith("Adjusted coordinates")
+                            or line.startswith("Adjusted heights") or line.startswith("Residuals")):
+                break
+            if section:
+                mm = re.match(r"^\s*\d+\s+(.+?)\s+(-?\d+\.\d{6})\s+(-?\d+\.\d{6})\s+(-?\d+\.\d{6})\s+(-?\d+\.\d)\s+(-?\d+\.\d)\s*$", line)
+                if mm:
+                    rows.append((float(mm.group(2)), float(mm.group(3)), float(mm.group(4))))
+        if len(rows) != len(x["orientations"]):
+            fails.append("text.orientations: %d rows in the text table, %d orientations in the XML" % (len(rows), len(x["orientations"])))
+        else:
+            stats.label("text_orientations")
+            def dgon(a, b):
+                return abs((a - b + 200.0) % 400.0 - 200.0)
+            for (ap, co, ad), o in zip(rows, x["orientations"]):
+                if dgon(ap, o["approx"]) > 1.1e-6 or dgon(ad, o["adj"]) > 1.1e-6:
+                    fails.append("text.orientation: standpoint %s text approx/adjusted %.6f/%.6f, XML %.6f/%.6f" % (o["id"], ap, ad, o["approx"], o["adj"]))
+                    break
+                if dgon(ap + co, ad) > 2.1e-6:
+                    fails.append("text.orientation_sum: approx %.6f + correction %.6f != adjusted %.6f" % (ap, co, ad))
+                    break
     return fails
 
 
@@ -350,6 +381,19 @@ def tools(c, x, px, d, stats):
     sE, sN, sH = c["shift"]
     for p in net2["points"]:
         p["E"] += sE; p["N"] += sN; p["H"] += sH
+    if c.get("extra"):
+        # a point that exists only in the second epoch (its identifier sorts first or last): covariance indexes of
+        # the common points differ between the epochs
+        b0 = net2["points"][0]
+        dims = net2["dims"]
+        kind = {"2d": "xy", "3d": "xyz", "1d": "z"}[dims]
+        q = {"id": "0000x" if c["extra"] == "first" else "zzzzx", "E": b0["E"] + 7.0, "N": b0["N"] + 3.0, "H": b0["H"] + 0.1,
+             "xy": "adj" if "xy" in kind else None, "z": "adj" if "z" in kind else None, "give_xy": "xy" in kind, "give_z": "z" in kind}
+        net2["points"].append(q)
+        nn = len(kind)
+        net2["clusters"].append({"k": "coords", "obs": [{"id": q["id"], "dims": kind, "e": [1.0] * nn}],
+                                 "cov": {"band": 0, "C": (np.eye(nn) * 25.0).tolist()}})
+        stats.label("epoch2_extra_point")
     args = ["--algorithm", c["alg"]]
     res2 = netrun.gama_local(nm.gkf_text(net2), args, raw=True)
     if res2["crash"] is not None or not res2["xml"]:
@@ -421,7 +465,72 @@ def tools(c, x, px, d, stats):
                 exp = (Bp[pid][k] - A[pid][k]) if (k in A[pid] and k in Bp[pid]) else 0.0
                 if abs(sh[i] - exp) > 6e-6:
                     fails.append("deformation.%s.shift: %s %s reported %.5f, coordinate difference %.7f" % (tag, pid, k, sh[i], exp))
+        fails += deformation_cov(tag, out, xa, xb, stats)
     return fails
+
+
+def cov_positions(x):
+    pos, where = 0, {}
+    for a in x["coordinates"]["adjusted"]:
+        if "x" in a:
+            where[(a["id"], "x")] = pos; where[(a["id"], "y")] = pos + 1
+            pos += 2
+        if "z" in a:
+            where[(a["id"], "z")] = pos
+            pos += 1
+    return where
+
+
+def deformation_cov(tag, out, xa, xb, stats):
+    """covariance matrix of the shifts = sum of the sub-matrices of the two epochs (read from their XML results)"""
+    if "cov" not in xa or "cov" not in xb:
+        return []
+    lines = out.splitlines()
+    try:
+        k = next(i for i, l in enumerate(lines) if l.startswith("# deformation covariance matrix"))
+    except StopIteration:
+        return ["deformation.%s.cov_missing: no covariance matrix in the output" % tag]
+    body = [l for l in lines[k + 1:] if l.strip()]
+    if not body:
+        return ["deformation.%s.cov_missing: empty" % tag]
+    try:
+        dim, band = [int(t) for t in body[0].split()[:2]]
+        vals = [float(t) for l in body[1:] for t in l.split()]
+    except ValueError:
+        return ["deformation.%s.cov_syntax: %r" % (tag, body[:2])]
+    S = np.zeros((dim, dim))
+    kk = 0
+    for i in range(dim):
+        for j in range(i, min(dim, i + band + 1)):
+            if kk >= len(vals):
+                return ["deformation.%s.cov_count: %d values for dim %d band %d" % (tag, len(vals), dim, band)]
+            S[i, j] = S[j, i] = vals[kk]
+            kk += 1
+    # rows of the shift table carry the indexes into this matrix
+    idx = {}
+    for line in lines:
+        mm = re.match(r"^(.*?)\s+(\d+)\s+(\d+)\s+(\d+)\s+(-?\d+\.\d+)\s+(-?\d+\.\d+)\s+(-?\d+\.\d+)\s+(-?\d+\.\d+)\s+(-?\d+\.\d+)\s+(-?\d+\.\d+)\s*$", line)
+        if mm and not line.startswith("#"):
+            pid = mm.group(1).strip()
+            for comp, g in zip(("x", "y", "z"), (2, 3, 4)):
+                if int(mm.group(g)):
+                    idx[(pid, comp)] = int(mm.group(g)) - 1
+    Ma, _ = adjxml.cov_band_matrix(xa["cov"])
+    Mb, _ = adjxml.cov_band_matrix(xb["cov"])
+    wa, wb = cov_positions(xa), cov_positions(xb)
+    keys = sorted(idx, key=lambda k_: idx[k_])
+    if any(k_ not in wa or k_ not in wb for k_ in keys):
+        return ["deformation.%s.cov_index: component listed that is not adjusted in both epochs" % tag]
+    if sorted(idx.values()) != list(range(dim)):
+        return ["deformation.%s.cov_index: indexes %s for a matrix of dimension %d" % (tag, sorted(idx.values()), dim)]
+    stats.label("deformation_cov")
+    for k1 in keys:
+        for k2 in keys:
+            exp = Ma[wa[k1], wa[k2]] + Mb[wb[k1], wb[k2]]
+            got = S[idx[k1], idx[k2]]
+            if abs(got - exp) > 2e-5 * max(abs(exp), math.sqrt(abs((Ma[wa[k1], wa[k1]] + Mb[wb[k1], wb[k1]]) * (Ma[wa[k2], wa[k2]] + Mb[wb[k2], wb[k2]])))) + 1e-5:
+                return ["deformation.%s.cov: cov(%s %s, %s %s) reported %.6g, sum of the two epochs %.6g" % (tag, k1[0], k1[1], k2[0], k2[1], got, exp)]
+    return []
 
 
 def nontrivial(c):
@@ -429,7 +538,7 @@ def nontrivial(c):
 
 
 PARTS = [
-    Part("serialisation", strategy=case, oracle=oracle, nontrivial=nontrivial, n={"quick": 800, "thorough": 6000},
+    Part("serialisation", strategy=case, oracle=oracle, nontrivial=nontrivial, n={"quick": 2000, "thorough": 15000},
          sample=lambda c: {"alg": c["alg"], "band": c["band"], "lang": c["lang"], "enc": c["enc"],
                            "ids": [p["id"] for p in c["net"]["points"]], "description": c["net"]["description"]}),
 ]
